@@ -550,6 +550,36 @@ func c09gen(c *h.Ctx, yield func(*h.Case)) {
 		emit("recvloop-timeout-tcp", ops...)
 	}
 
+	// the peer stalls inside the connection set-up towards the survivor: silent connections sit at
+	// the survivor's listener while a healthy peer makes first contact (witness of the seeded change
+	// C09r5-B on TLS: a handshake run by the accept loop itself)
+	emitTo("corpus", "corpus-stalled-setup", "c09 open tls 0,1,2", "c09 handler 10", "c09 stall 3", "c09 inbound 2 1", "c09 send router 2 1", "c09 conns 2")
+	for i := 0; i < c.Pick(10, 90); i++ {
+		tr := []string{"tls", "tls", "tcp"}[r.Intn(3)]
+		ops := []string{"c09 open " + tr + " 0,1,2", "c09 handler 10"}
+		if r.Intn(2) == 0 {
+			ops = append(ops, "c09 send router 1 1") // an established connection keeps working
+		}
+		if r.Intn(4) == 0 {
+			ops = append(ops, "c09 inbound 2 1") // peer 2 is connected already: nothing new to accept
+		}
+		for k := 1 + r.Intn(3); k > 0; k-- {
+			ops = append(ops, "c09 stall 3")
+		}
+		ops = append(ops, fmt.Sprintf("c09 inbound 2 %d", 1+r.Intn(3)))
+		if r.Intn(2) == 0 {
+			ops = append(ops, "c09 send router 1 1")
+		}
+		ops = append(ops, "c09 send "+[]string{"router", "raw", "sendto"}[r.Intn(3)]+" 2 1", "c09 conns 2")
+		if r.Intn(2) == 0 {
+			ops = append(ops, "c09 inbound 1 2", "c09 conns 1")
+		}
+		if r.Intn(2) == 0 {
+			ops = append(ops, "c09 down 2", "c09 conns 2", "c09 send router 2 1")
+		}
+		emit("stalled-setup-"+tr, ops...)
+	}
+
 	var all []c09pending
 	for _, q := range order {
 		for i, cs := range queues[q] {
